@@ -49,8 +49,6 @@ theorem xorFold_congr (k1 k2 : Array UInt8) (h1 : 0 < k1.size) (h2 : 0 < k2.size
   | nil => exact ⟨c, rfl, rfl⟩
   | cons i is ih =>
     simp only [List.foldl_cons, List.length_cons] at hb ⊢
-    have e1 : xorStep k1 (c, (4 * t) % k1.size) i = xorStep k2 (c, (4 * t) % k2.size) i
-        |>.1 = (xorStep k2 (c, (4 * t) % k2.size) i).1 → True := fun _ => trivial
     have s1 : xorStep k1 (c, (4 * t) % k1.size) i =
         ((c.set! i (c[i]! ^^^ (nextWord k1 ((4 * t) % k1.size)).1)), (4 * (t + 1)) % k1.size) := by
       unfold xorStep
